@@ -474,6 +474,7 @@ func (c *Ctx) LiveLinux(cs *LinuxCase, host *linuxdev.Host, o LiveOpts) *LiveRes
 	r.Res.Stderr = strings.ReplaceAll(r.Res.Stderr, w.Dir, "BASEDIR")
 	c.Res.SimSeconds += r.EndAt.Seconds()
 	c.EventHash(r.EvHash)
+	dumpLog(r.EvHash, r.Log)
 	return r
 }
 
